@@ -180,12 +180,11 @@ func runC04(c *Ctx) {
 		setReadI := p.IfaceMethod("internal", "Poller", "SetRead")
 		found := 0
 		for _, call := range callsTo(itSet, slotSet) {
-			h, ok := strip(call.Common().Args[2]).(*ssa.MakeClosure)
-			if !ok {
-				c.unproven(itSet, "handler", call.Pos(), "the timer handler is not a closure literal")
+			hf, _, whyNot := handlerFunction(p, call.Common().Args[2])
+			if hf == nil {
+				c.unproven(itSet, "handler", call.Pos(), "cannot resolve the timer handler: %s", whyNot)
 				continue
 			}
-			hf := h.Fn.(*ssa.Function)
 			c.touch(hf)
 			// the call of the captured user function
 			eachInstr(hf, func(in ssa.Instruction) {
